@@ -48,6 +48,8 @@ Section Containers.
   Lemma rget_rswap : forall (m : r3 A) i j k,
     rget (rswap m i j) k = if Nat.eqb (idx j) (idx k) then rget m i else if Nat.eqb (idx i) (idx k) then rget m j else rget m k.
   Proof. intros m i j k. unfold rswap. rewrite !rget_rset. reflexivity. Qed.
+  Lemma rset_rget_same : forall (m : r3 A) i, rset m i (rget m i) = m.
+  Proof. intros [[x y] z] [|[|i]]; reflexivity. Qed.
   Lemma rget_same_idx : forall (m : r3 A) i k, idx i = idx k -> rget m i = rget m k.
   Proof. intros m i k H. rewrite <- (rget_idx m i), <- (rget_idx m k), H. reflexivity. Qed.
 End Containers.
@@ -67,6 +69,30 @@ Lemma pair_eqb_eq : forall a b, pair_eqb a b = true -> a = b.
 Proof.
   intros [a1 a2] [b1 b2] H. unfold pair_eqb in H; cbn in H. apply andb_prop in H as [H1 H2].
   apply Nat.eqb_eq in H1. apply Nat.eqb_eq in H2. subst. reflexivity.
+Qed.
+
+(** ** A skip guard that fires only for a zero multiplier does not change what the program computes *)
+Lemma vsub_mul0 : forall a b : v3 R, vsub Rnum a (vmuls Rnum b 0) = a.
+Proof.
+  intros [[x y] z] [[bx by_] bz]. unfold vsub, vmuls, vbuild; cbn [vget n_sub n_mul Rnum].
+  f_equal; [f_equal|]; ring.
+Qed.
+Lemma skip_exact_zero : forall cmp thr, skip_exact cmp thr = true -> cmp = CLe /\ Q2R thr = 0.
+Proof.
+  intros cmp [n d] H. destruct cmp; try discriminate. split; [reflexivity|].
+  unfold skip_exact, q_is_zero in H; cbn [Qnum] in H. apply Z.eqb_eq in H. subst. unfold Q2R; cbn [Qnum Qden]. lra.
+Qed.
+Lemma elimskip_equiv : forall m p c cmp thr s, skip_exact cmp thr = true ->
+  do_op Rnum (OElimSkip m p c cmp thr) s = do_op Rnum (OElim m p c) s.
+Proof.
+  intros m p c cmp thr [L Rr] H. destruct (skip_exact_zero cmp thr H) as [-> Hz].
+  cbn [do_op fst snd]. destruct (n_is_zero Rnum (vget (rget L p) c)); [reflexivity|].
+  cbn [n_cmp n_abs n_ofQ n_div Rnum Rcmp]. rewrite Hz.
+  destruct (Rle_dec (Rabs (vget (rget L m) c / vget (rget L p) c)) 0) as [Hle|]; [|reflexivity].
+  assert (V : vget (rget L m) c / vget (rget L p) c = 0).
+  { pose proof (Rabs_pos (vget (rget L m) c / vget (rget L p) c)) as P.
+    destruct (Req_dec (vget (rget L m) c / vget (rget L p) c) 0) as [Z|Z]; [exact Z|]. apply Rabs_pos_lt in Z. lra. }
+  rewrite V, !vsub_mul0, !rset_rget_same. reflexivity.
 Qed.
 
 (** ** Invariant 1: right block times the input matrix = left block, row by row *)
@@ -99,10 +125,13 @@ Section Inv.
 
   Lemma do_op_inv : forall o s s', Inv s -> do_op Rnum o s = GOk s' -> Inv s'.
   Proof.
-    intros o [L Rr] s' H E. destruct o as [col n rows cmp init | m p c | r c cmp thr]; cbn [do_op fst snd] in E.
+    intros o [L Rr] s' H E. destruct o as [col n rows cmp init | m p c | m p c cmp thr | r c cmp thr]; cbn [do_op fst snd] in E.
     - destruct (find_pivot Rnum rows col cmp L (n_ofQ Rnum init) None) as [p0|]; [|discriminate].
       injection E as <-. destruct (Nat.eqb p0 n); [exact H | apply inv_swap, H].
     - destruct (n_is_zero Rnum (vget (rget L p) c)); [discriminate|]. injection E as <-.
+      apply inv_set; [exact H|]. apply rowrel_elim; [apply (H m) | apply (H p)].
+    - destruct (n_is_zero Rnum (vget (rget L p) c)); [discriminate|].
+      destruct (n_cmp Rnum cmp _ _); injection E as <-; [exact H|].
       apply inv_set; [exact H|]. apply rowrel_elim; [apply (H m) | apply (H p)].
     - destruct (n_cmp Rnum cmp _ _); [discriminate|]. destruct (n_is_zero Rnum _); [discriminate|]. injection E as <-.
       apply inv_set; [exact H|]. apply rowrel_scale, (H r).
@@ -160,9 +189,28 @@ Proof.
   - apply IH in H as [H|H]; [left; right; exact H | right; exact H].
 Qed.
 
+Lemma do_op_gam_elim : forall m p c A L Rr L' R', Gam A L ->
+  do_op Rnum (OElim m p c) (L, Rr) = GOk (L', R') -> Gam (abs_op (OElim m p c) A) L'.
+Proof.
+  intros m p c A L Rr L' R' H E. cbn [do_op fst snd] in E.
+  cbn [n_is_zero Rnum] in E. destruct (Req_EM_T (vget (rget L p) c) 0) as [|Hd]; [discriminate|]. injection E as <- <-.
+  cbn [abs_op]. destruct (Nat.eqb (idx m) (idx p)).
+  + intros k j. rewrite !rget_rset. destruct (Nat.eqb (idx m) (idx k)); [|apply H].
+    destruct j as [|[|j]]; exact I.
+  + intros k j. rewrite !rget_rset. destruct (Nat.eqb (idx m) (idx k)); [|apply H].
+    unfold vsub, vmuls. rewrite !vget_vbuild, idx_idem. cbn [n_sub n_mul n_div Rnum].
+    destruct (Nat.eqb (idx j) (idx c)) eqn:Ej.
+    * apply Nat.eqb_eq in Ej. rewrite Ej, !vget_idx. cbn [gam]. field. exact Hd.
+    * destruct (vget (rget A p) (idx j)) eqn:Ea; try exact I.
+      pose proof (H p (idx j)) as Hp. rewrite Ea in Hp. cbn [gam] in Hp. pose proof (H m (idx j)) as Hm. rewrite Hp.
+      match goal with |- gam _ (?a - 0 * ?b) => replace (a - 0 * b) with a by ring end. exact Hm.
+Qed.
+
 Lemma do_op_gam : forall o A L Rr L' R', Gam A L -> do_op Rnum o (L, Rr) = GOk (L', R') -> Gam (abs_op o A) L'.
 Proof.
-  intros o A L Rr L' R' H E. destruct o as [col n rows cmp init | m p c | r c cmp thr]; cbn [do_op fst snd] in E.
+  intros o A L Rr L' R' H E. destruct o as [col n rows cmp init | m p c | m p c cmp thr | r c cmp thr].
+  4: cbn [do_op fst snd] in E.
+  1: cbn [do_op fst snd] in E.
   - (* pivot search and swap *)
     destruct (find_pivot Rnum rows col cmp L (n_ofQ Rnum init) None) as [p0|] eqn:EP; [|discriminate].
     apply find_pivot_in in EP as [EP|EP]; [|discriminate].
@@ -186,17 +234,17 @@ Proof.
       * injection E as <- <-. apply H.
       * injection E as <- <-. rewrite rget_rswap, (NE p0 (or_intror EP)), (NE n (or_introl eq_refl)). apply H.
   - (* elimination *)
-    cbn [n_is_zero Rnum] in E. destruct (Req_EM_T (vget (rget L p) c) 0) as [|Hd]; [discriminate|]. injection E as <- <-.
-    cbn [abs_op]. destruct (Nat.eqb (idx m) (idx p)).
-    + intros k j. rewrite !rget_rset. destruct (Nat.eqb (idx m) (idx k)); [|apply H].
-      destruct j as [|[|j]]; exact I.
-    + intros k j. rewrite !rget_rset. destruct (Nat.eqb (idx m) (idx k)); [|apply H].
-      unfold vsub, vmuls. rewrite !vget_vbuild, idx_idem. cbn [n_sub n_mul n_div Rnum].
-      destruct (Nat.eqb (idx j) (idx c)) eqn:Ej.
-      * apply Nat.eqb_eq in Ej. rewrite Ej, !vget_idx. cbn [gam]. field. exact Hd.
-      * destruct (vget (rget A p) (idx j)) eqn:Ea; try exact I.
-        pose proof (H p (idx j)) as Hp. rewrite Ea in Hp. cbn [gam] in Hp. pose proof (H m (idx j)) as Hm. rewrite Hp.
-        match goal with |- gam _ (?a - 0 * ?b) => replace (a - 0 * b) with a by ring end. exact Hm.
+    exact (do_op_gam_elim m p c A L Rr L' R' H E).
+  - (* elimination with a skip guard *)
+    cbn [abs_op]. destruct (skip_exact cmp thr) eqn:SE; cbn [andb].
+    + rewrite (elimskip_equiv m p c cmp thr (L, Rr) SE) in E.
+      pose proof (do_op_gam_elim m p c A L Rr L' R' H E) as G. cbn [abs_op] in G.
+      destruct (Nat.eqb (idx m) (idx p)); cbn [negb]; exact G.
+    + (* any other guard: the row may or may not have been updated; the other rows are unchanged *)
+      cbn [do_op fst snd] in E. destruct (n_is_zero Rnum (vget (rget L p) c)); [discriminate|].
+      destruct (n_cmp Rnum cmp _ _); injection E as <- <-; intros k j; rewrite ?rget_rset.
+      * destruct (Nat.eqb (idx m) (idx k)); [destruct j as [|[|j]]; exact I | apply H].
+      * destruct (Nat.eqb (idx m) (idx k)); [destruct j as [|[|j]]; exact I | apply H].
   - (* scaling *)
     destruct (n_cmp Rnum cmp _ _); [discriminate|]. cbn [n_is_zero Rnum] in E.
     destruct (Req_EM_T (vget (rget L r) c) 0) as [|Hd]; [discriminate|]. injection E as <- <-.
